@@ -426,6 +426,14 @@ func RunWorker(prop string, seed uint64, worker, cases int, scratch, out string)
 		e := &Engine{Prop: prop, Dir: filepath.Join(scratch, fmt.Sprintf("r%d", c)), R: vk.NewRand(cs), Res: res, Seed: cs, Case: worker*1000 + c, Journal: j}
 		fmt.Fprintf(j, "{\"case\":%d,\"seed\":%d,\"prop\":%q}\n", e.Case, cs, prop)
 		switch {
+		case prop == "C01" && worker == 2 && (c == 0 || c%40 == 20):
+			RunReloadBacklog(e)
+			res.Cases++
+			sig, _ := e.CaseSig()
+			res.Sig(sig)
+			res.WriteFile(out)
+			j.Close()
+			continue
 		case prop == "C01" && worker <= 1 && (c == 0 || c%40 == 20):
 			RunFragmented(e, worker == 1)
 			res.Cases++
